@@ -1,7 +1,7 @@
 //! C01 - version comparison follows pkg_install's dewey ordering.
 //!
 //! Exhaustive over: all ordered pairs of versions built from <= N tokens of a
-//! 32-token alphabet x 4 operators (through `Pattern`), all unordered pairs
+//! 35-token alphabet x 4 operators (through `Pattern`), all unordered pairs
 //! through `best_match`, all character-level strings <= L over a 16-char
 //! alphabet against 24 probe versions (both placements), and an 18-digit pool.
 
@@ -18,10 +18,12 @@ const FINDING: &str = "letter-weight-ascii";
 
 /// The last two tokens are characters whose *Unicode* lower-case mapping yields
 /// ASCII letters (KELVIN SIGN -> k, I WITH DOT ABOVE -> i + combining dot):
-/// they are non-ASCII and must be ignored, not read as letters.
-const TOKENS: [&str; 32] = [
+/// they are non-ASCII and must be ignored, not read as letters.  The three after them
+/// are non-ASCII *numeric* characters (ARABIC-INDIC DIGIT THREE, SUPERSCRIPT TWO, FULLWIDTH
+/// DIGIT ONE): not ASCII digits, so ignored as well.
+const TOKENS: [&str; 35] = [
     "0", "1", "2", "10", "09", ".", "_", "alpha", "beta", "rc", "pre", "pl", "nb", "a", "b", "z",
-    "n", "p", "r", "ALPHA", "Beta", "RC", "Pre", "PL", "NB", "A", "Z", "+", "é", "~", "\u{212a}", "\u{130}",
+    "n", "p", "r", "ALPHA", "Beta", "RC", "Pre", "PL", "NB", "A", "Z", "+", "é", "~", "\u{212a}", "\u{130}", "\u{663}", "\u{b2}", "\u{ff11}",
 ];
 
 const CHARS: [char; 16] = [
@@ -388,7 +390,7 @@ fn main() {
         run.finish_replay(a, b);
     }
     run.rule(
-        "every ordered pair of versions built from <= N tokens of a 32-token alphabet, each \
+        "every ordered pair of versions built from <= N tokens of a 35-token alphabet, each \
          operator through a compiled Pattern against the name p-<A>; every unordered pair through \
          best_match; every string <= L over a 16-character alphabet against 24 probe versions in \
          both placements; an 18-digit pool. Non-trivial = the model comparison is decided after \
@@ -486,5 +488,64 @@ fn main() {
         }
     }
     run.merge(t);
+
+    // (d) scale: many components, and the whole range of numeric magnitudes.  Thresholds
+    // (a fast path above N components, an integer width below 64 bits) do not show
+    // up in 3-token versions.
+    let mut long: Vec<String> = vec![];
+    for n in 1..=run.pick(72, 140) {
+        for (sep, last) in [(".0", ""), (".0", ".1"), (".1", ""), ("_0", "nb1"), (".0", "rc1"), (".0", "a")] {
+            long.push(format!("1{}{}", sep.repeat(n - 1), last));
+        }
+    }
+    run.bound(format!("(d) all ordered pairs of {} long versions (1..{} components); four operators", long.len(), run.pick(72, 140)));
+    par_items(&run, "C01(d) long versions", &long, |_, a, t| {
+        for b in &long {
+            t.states += 1;
+            t.transitions += 1;
+            t.evals += 1;
+            // one placement, four operators
+            let ra = dewey::tokenise(a, LetterWeight::Rank);
+            let rb = dewey::tokenise(b, LetterWeight::Rank);
+            let aa = dewey::tokenise(a, LetterWeight::AsciiLower);
+            let ab = dewey::tokenise(b, LetterWeight::AsciiLower);
+            let name = format!("p-{}", a);
+            for op in OPS {
+                let pat = format!("p{}{}", op_name(op), b);
+                t.validated += 1;
+                match guard(|| Pattern::new(&pat).map(|p| p.matches(&name))) {
+                    Ok(Ok(got)) => judge(&run, t, a, b, op, got, &ra, &rb, &aa, &ab),
+                    other => t.violation(Violation::new("cmp", cmp_case(a, b, op), json!("a verdict"), json!(format!("{:?}", other.map(|r| r.map_err(|e| e.to_string())))), "long version")),
+                }
+            }
+            t.nontrivial += 1;
+        }
+        t.outcome("long-versions/row");
+    });
+    let mut ladder: Vec<String> = vec!["0".into()];
+    for e in 0..63u32 {
+        let v = 1u64 << e;
+        for d in [v.saturating_sub(1), v, v + 1] {
+            ladder.push(d.to_string());
+        }
+    }
+    let mut p10 = 1u64;
+    for _ in 0..18 {
+        ladder.push((p10 - 1).to_string());
+        ladder.push(p10.to_string());
+        p10 *= 10;
+    }
+    ladder.sort();
+    ladder.dedup();
+    let ladder: Vec<String> = ladder.into_iter().filter(|s| s.len() <= 18).collect();
+    run.bound(format!("(d) magnitude ladder: {} numbers (2^e-1, 2^e, 2^e+1, 10^e-1, 10^e, up to 18 digits), all ordered pairs as second component and as revision", ladder.len()));
+    par_items(&run, "C01(d) magnitudes", &ladder, |_, a, t| {
+        for b in &ladder {
+            t.states += 1;
+            t.transitions += 2;
+            both_placements(&run, t, &format!("1.{}", a), &format!("1.{}", b));
+            both_placements(&run, t, &format!("2nb{}", a), &format!("2nb{}", b));
+        }
+    });
     run.finish();
 }
